@@ -1,6 +1,6 @@
 """U6 range - `$tb::random` draws (C32: reproducible for a given seed and handle name; every range draw within its bounds).
 Back end: Kani/CBMC. get/get_range/mask/sign_extend: complete (loop-free, every u64 min/max, every width 0..=64, both
-signednesses, every draw rand may return). derive_seed: bounded stand-in (name <= 8 octets) + a syntactic scan of its body."""
+signednesses, every draw rand may return). derive_seed: bounded stand-in (name <= 2 octets) + a syntactic scan of its body."""
 import re
 from vp.core import KaniJob
 from vp.extract import ExtractError
@@ -35,7 +35,7 @@ HARNESSES = [
     ("sign_extend_twos_complement", "proof", "sign_extend", None),
     ("get_range_within_bounds", "proof", "get_range", None),
     ("get_fits_width", "proof", "get", None),
-    ("derive_seed_is_fnv1a", "bounded", "derive_seed", "name.len()<=8 octets"),
+    ("derive_seed_is_fnv1a", "bounded", "derive_seed", "name.len()<=2 octets"),
     ("canary_get_range", "canary", "get_range", None),
 ]
 
@@ -43,7 +43,7 @@ TRUSTED = {
     r"kani::assume\(lo <= r && r <= hi\)": "O9: rand's documented contract for Rng::random_range(lo..=hi): the result r satisfies lo <= r <= hi "
                                            "(and it panics on an empty range: `lo <= hi` is asserted, not assumed). Pcg64/seed_from_u64 determinism is rand's.",
     r"kani::assume\(w <= 64\)": "harness precondition: handle width <= 64 (doc comment of random_table::get; wider element types are outside this unit)",
-    r"kani::assume\(len <= 8\)": "bound of the derive_seed stand-in: handle names of at most 8 octets",
+    r"kani::assume\(len <= 2\)": "bound of the derive_seed stand-in: handle names of at most 2 octets",
 }
 TRUSTED.update(VL.STUB_TRUST)
 
@@ -91,7 +91,7 @@ def build(ctx, res):
                      "result is Value::U64 with width w, the handle's signedness, no x/z, payload & !mask(w) == 0, and its value read at (w, signed) lies between "
                      "the two requested bounds read at (w, signed), in whichever order they were given (the code swaps)",
         "get": "requires w <= 64: result is Value::U64, width w, signedness as requested, no x/z, payload fits w bits; range passed to rand non-empty",
-        "derive_seed": "== FNV-1a-64 over (8 octets of base, least significant first) ++ (octets of the handle name; empty if the id is unknown), name <= 8 octets; "
+        "derive_seed": "== FNV-1a-64 over (8 octets of base, least significant first) ++ (octets of the handle name; empty if the id is unknown), name <= 2 octets; "
                        "equal for equal (base, name) whatever the id; body mentions only parameters %s, locals %s and %s" % (params, locs, sorted(SEED_ALLOW)),
     })
     res.samples.append({"obligation": "kani:range:get_range_within_bounds", "contract": res.clauses["get_range"]})
